@@ -131,10 +131,9 @@ def check(an: Analysis) -> None:
     for c in scs:
         ob.inst(saexit, c)
         cp = param_positions(prog.functions[c02.G_EXIT])
-        for i in range(3):
-            a = arg_for(c, i, cp[i])
-            if not is_name(a, sown[i]):
-                ob.fail(saexit, c, f"task group exit receives {stmt_text(a) if a is not None else 'nothing'} instead of {sown[i]}")
+        problem = c02.exc_triple_problem(an, saexit, c, cp, sown)
+        if problem:
+            ob.fail(saexit, c, "task group exit " + problem)
 
     # ------------------------------------------------------------------ C06.4 group exit on every scope exit path
     ob = an.ob("C06.4", "K1 strict", "ScopeContext.__aexit__ attempts the task group exit on every path (also after a failing disposables exit)", ["context.access.ScopeContext.__aexit__"])
